@@ -9,6 +9,7 @@ __CPROVER_ensures(scalar_ok(r))
 ;
 #include "src/secp256k1.c"
 #include "post.h"
+#include "../C12/decode.h"
 
 size_t g_k; /* ghost byte index: never assigned by the code, so an assertion on data[g_k] is a universal statement */
 
@@ -28,7 +29,7 @@ void h_psign(void) {
     INPUT(size_t, k);
     secp256k1_musig_partial_sig psig0 = psig;
     secp256k1_musig_secnonce sn0 = sn;
-    int ret, live;
+    int ret, live, kp_valid; secp256k1_scalar k0[2], s_after; secp256k1_ge Pn0, Pk0;
     secp256k1_musig_partial_sig *p_psig = use_psig ? &psig : NULL;
     secp256k1_musig_secnonce *p_sn = use_sn ? &sn : NULL;
     secp256k1_keypair *p_kp = use_kp ? &kp : NULL;
@@ -37,24 +38,25 @@ void h_psign(void) {
     verif_ctx_init(&ctx);
     g_k = k;
     __CPROVER_assume(g_k < sizeof(sn.data));
-    /* abstract view of the secnonce on entry: LIVE = magic present and nonce scalars not all zero */
-    live = (sn0.data[0] == 0x22 && sn0.data[1] == 0x0e && sn0.data[2] == 0xdc && sn0.data[3] == 0xf1);
-    { int nz = 0; size_t i; for (i = 4; i < 68; i++) nz |= sn0.data[i]; live = live && nz; }
+    /* abstract view of the secnonce on entry: LIVE = accepted by the TU's own secnonce_load (opaque object: no byte offsets, audit #17) */
+    dec_init(); live = dec_secnonce(k0, &Pn0, &sn0); kp_valid = dec_keypair(NULL, &Pk0, &kp);
 
     ret = secp256k1_musig_partial_sign(&ctx, p_psig, p_sn, p_kp, p_cache, p_sess);
 
     __CPROVER_assert(ret == 0 || ret == 1, "C13 psign: return value is 0 or 1");
     __CPROVER_assert(g_error == 0, "C13 psign: error callback never invoked");
     if (p_sn != NULL) __CPROVER_assert(sn.data[g_k] == 0, "C13 psign.wipe: secnonce all-zero on every return");
-    if (ret == 0 && g_k < sizeof(psig.data)) __CPROVER_assert(psig.data[g_k] == psig0.data[g_k], "C13 psign.nosig: no signature written when the call fails");
+    /* "produces no signature" (property): after a failed call the output object is either exactly what the caller had before or
+     * not an initialised partial signature (header and property do not forbid clobbering it) */
+    if (ret == 0 && p_psig != NULL && g_k < sizeof(psig.data)) __CPROVER_assert(psig.data[g_k] == psig0.data[g_k] || !dec_psig(&s_after, &psig), "C13 psign.nosig: a failed call produces no partial signature (output unchanged or not an initialised signature object)");
     if (ret == 1) __CPROVER_assert(g_illegal == 0, "C13 psign: success implies no illegal callback");
     if (ret == 1) __CPROVER_assert(p_sn != NULL && p_psig != NULL && p_kp != NULL && p_cache != NULL && p_sess != NULL, "C13 psign: success needs every argument");
     if (p_sn != NULL && !live) __CPROVER_assert(ret == 0 && g_illegal == 1, "C13 psign.nosig: zeroed/used/garbage secnonce yields no signature and reports illegal use");
     if (p_sn == NULL) __CPROVER_assert(ret == 0 && g_illegal == 1, "C13 psign: NULL secnonce is illegal");
 #ifndef VERIF_NATIVE
     if (ret == 1) {
-        __CPROVER_assert(eqmodp(le256(&sn0.data[68]), le256(&kp.data[32])), "C13 psign.binding: secnonce public key x equals keypair public key x");
-        __CPROVER_assert(eqmodp(le256(&sn0.data[100]), le256(&kp.data[64])), "C13 psign.binding: secnonce public key y equals keypair public key y");
+        __CPROVER_assert(live && kp_valid && cval(&Pn0.x) == cval(&Pk0.x), "C13 psign.binding: secnonce public key x equals keypair public key x");
+        __CPROVER_assert(cval(&Pn0.y) == cval(&Pk0.y), "C13 psign.binding: secnonce public key y equals keypair public key y");
     }
 #endif
     if (ret == 1) REACH("psign success");
